@@ -2,6 +2,7 @@ import Driver.Util
 import Driver.Ante
 import Driver.Agg
 import Driver.Price
+import Driver.Rewards
 open Driver
 
 def dispatch (fam : String) : Option (List String → String → Option Res) :=
@@ -13,6 +14,9 @@ def dispatch (fam : String) : Option (List String → String → Option Res) :=
   | "medianu" => some runMedianU
   | "mediani" => some runMedianI
   | "pcache" => some runPcache
+  | "calc" => some runCalc
+  | "alloc" => some runAlloc
+  | "divvy" => some runDivvy
   | _ => none
 
 def splitArrow (fs : List String) : List String × String :=
